@@ -3,7 +3,9 @@
 //! the whole stack afterwards; every witness is reconstructed by the driver from the tags in the
 //! output (for SUS the uniform draw is additionally replayed, for the model comparison only).
 //!
-//! input   `(sel (op NAME params…) (rng seed S | script W) (stack (pop (tag obj)*)*))`   stack top first
+//! input   `(sel (op NAME params…) (rng seed S | script W) (stack (pop (tag obj)*)*) [(via select)])`   stack top first;
+//!         `(via select)`: the operator is built with `from_params` and `Selection::select` is called directly on the
+//!         top population (the reported stack is then: clones of the returned references, the slice after the call, the rest)
 //! output  `((res ok|(e exec)|(e ctor)|panic) (stack (pop …)*) (wit none|(draw xHEX)|(sets (i*)*)))`
 //! helpers `(pw (objs x*) (off x) (norm t|f))` → `(ws x*)|none|panic`;  `(rrank (objs x*))` → `(ranks n*)`;
 //!         `(bounds (objs x*))` → `(b max min)|none`
@@ -13,7 +15,7 @@ use hcommon::*;
 use mahf::components::selection::de::{DEBest, DECurrentToBest, DERand};
 use mahf::components::selection::functional as f;
 use mahf::components::selection::iwo::DeterministicFitnessProportional;
-use mahf::components::selection::{All, CloneSingle, ExponentialRank, FullyRandom, LinearRank, RandomWithoutRepetition, RouletteWheel, StochasticUniversalSampling, Tournament};
+use mahf::components::selection::{All, CloneSingle, Selection, ExponentialRank, FullyRandom, LinearRank, RandomWithoutRepetition, RouletteWheel, StochasticUniversalSampling, Tournament};
 use mahf::components::selection::None as SelectNone;
 use mahf::state::common::Populations;
 use mahf::{Component, Individual, Random, SingleObjective, State};
@@ -87,6 +89,34 @@ fn component(op: &[Sx]) -> Option<Box<dyn Component<P>>> {
     })
 }
 
+/// `Selection::select` called directly (public trait method) on the slice, operator built by `from_params`.
+/// `None`: the constructor refused the parameters.
+fn select_direct(op: &[Sx], pop: &[Individual<P>], rng: &mut Random) -> Option<Result<Vec<Individual<P>>, ()>> {
+    fn go<S: Selection<P>>(s: S, pop: &[Individual<P>], rng: &mut Random) -> Option<Result<Vec<Individual<P>>, ()>> {
+        Some(s.select(pop, rng).map(|v| v.into_iter().cloned().collect()).map_err(|_| ()))
+    }
+    let name = op[0].atom().unwrap();
+    let n = |k: usize| op[k].nat().unwrap() as u32;
+    let x = |k: usize| op[k].float().unwrap();
+    match name {
+        "all" => go(All::from_params(), pop, rng),
+        "none" => go(SelectNone::from_params(), pop, rng),
+        "clone" => go(CloneSingle::from_params(n(1)), pop, rng),
+        "fullyrandom" => go(FullyRandom::from_params(n(1)), pop, rng),
+        "rwor" => go(RandomWithoutRepetition::from_params(n(1)), pop, rng),
+        "roulette" => go(RouletteWheel::from_params(n(1), x(2)), pop, rng),
+        "sus" => go(StochasticUniversalSampling::from_params(n(1), x(2)), pop, rng),
+        "tournament" => go(Tournament::from_params(n(1), n(2)), pop, rng),
+        "linrank" => go(LinearRank::from_params(n(1)), pop, rng),
+        "exprank" => go(ExponentialRank::from_params(n(1), x(2)).ok()?, pop, rng),
+        "derand" => go(DERand::from_params(n(1)).ok()?, pop, rng),
+        "debest" => go(DEBest::from_params(n(1)).ok()?, pop, rng),
+        "dectb" => go(DECurrentToBest::from_params(n(1)).ok()?, pop, rng),
+        "iwo" => go(DeterministicFitnessProportional::from_params(n(1), n(2)), pop, rng),
+        _ => panic!("unknown op {name}"),
+    }
+}
+
 /// The only draw that cannot be read off the output: SUS' uniform start point. It is obtained by
 /// replaying `rng.gen::<f64>()` on an identically seeded generator and is used by the driver for the
 /// model comparison only (never by the property predicate; a mismatch falls back to a legality check).
@@ -103,6 +133,22 @@ fn run_sel(a: &[Sx]) -> String {
     let op = a[0].head().unwrap().1;
     let rng_spec = a[1].head().unwrap().1;
     let pops = a[2].head().unwrap().1;
+    if a.len() > 3 && !pops.is_empty() {
+        // direct call of the trait method
+        let cur = mk_pop(&pops[0]);
+        let mut rng = mk_rng(rng_spec);
+        let (res, sel) = match catch(|| select_direct(op, &cur, &mut rng)) {
+            Some(Some(Ok(sel))) => ("ok".to_string(), Some(sel)),
+            Some(Some(Err(()))) => ("(e exec)".to_string(), Option::None),
+            Some(Option::None) => ("(e ctor)".to_string(), Option::None),
+            Option::None => ("panic".to_string(), Option::None),
+        };
+        let wit = witness(op, rng_spec, Some(&cur));
+        let mut stack: Vec<String> = sel.iter().map(|s| pop_s(s)).collect();
+        stack.push(pop_s(&cur));
+        stack.extend(pops[1..].iter().map(|p| pop_s(&mk_pop(p))));
+        return list([tagged("res", [res]), tagged("stack", stack), tagged("wit", [wit])]);
+    }
     let mut state: State<P> = State::new();
     state.insert(Populations::<P>::new());
     state.insert(mk_rng(rng_spec));
@@ -192,9 +238,10 @@ fn site_of(input: &Sx) -> String {
             let op = a[0].head().unwrap().1;
             let name = op_site(op[0].atom().unwrap());
             let pops = a[2].head().unwrap().1;
-            if sel_malformed(op, pops) { format!("{name}/malformed") }
-            else if sel_extreme(op, pops) { format!("{name}/extreme") }
-            else { name.to_string() }
+            let via = if a.len() > 3 && !pops.is_empty() { "::select" } else { "" };
+            if sel_malformed(op, pops) { format!("{name}{via}/malformed") }
+            else if sel_extreme(op, pops) { format!("{name}{via}/extreme") }
+            else { format!("{name}{via}") }
         }
     }
 }
@@ -226,16 +273,29 @@ fn sel_malformed(op: &[Sx], pops: &[Sx]) -> bool {
     }
 }
 
-/// Finite values so large that the weight arithmetic overflows to inf / NaN: outside the
-/// exact-arithmetic theorems ("up to rounding"); only the model's prediction is compared.
+/// The weight arithmetic of RouletteWheel / SUS / IWO can overflow to inf / NaN or underflow to 0: all objectives
+/// finite and `len * ((max - min) + offset)` not below 1e300 (no formulation of the weights, their total or the
+/// selection points exceeds that bound), or a spread `max - min` / an offset that is positive but below 1e-290
+/// (objectives that differ by a subnormal amount: the distance between two SUS points underflows to 0), or an
+/// offset beyond 1e150.  Outside the exact-arithmetic theorems ("up to rounding"); only the model's prediction
+/// is compared there.  Every other operator only COMPARES objective values: the whole range
+/// -f64::MAX ..= f64::MAX and +inf is inside the property for them, and so is a population with a +inf member
+/// for the three weight based operators (the documented `Err`).
 fn sel_extreme(op: &[Sx], pops: &[Sx]) -> bool {
-    let big = |v: f64| v.is_finite() && v.abs() > 1e150;
-    if pops[0].head().unwrap().1.iter().any(|i| i.items().unwrap()[1].atom() == Some("u")) { return false; }
-    if pops[0].head().unwrap().1.iter().any(|i| i.items().unwrap()[1].float().map(big).unwrap_or(false)) { return true; }
-    match op[0].atom().unwrap() {
-        "roulette" | "sus" => big(op[2].float().unwrap()),
-        _ => false,
-    }
+    let off = match op[0].atom().unwrap() {
+        "roulette" | "sus" => op[2].float().unwrap(),
+        "iwo" => 0.0,
+        _ => return false,
+    };
+    let inds = pops[0].head().unwrap().1;
+    if inds.iter().any(|i| i.items().unwrap()[1].atom() == Some("u")) { return false; }
+    if off.is_finite() && off.abs() > 1e150 { return true; }
+    let objs: Vec<f64> = inds.iter().map(|i| i.items().unwrap()[1].float().unwrap()).collect();
+    if objs.is_empty() || objs.iter().any(|o| !o.is_finite()) { return false; }
+    let mx = objs.iter().cloned().fold(f64::NEG_INFINITY, f64::max);
+    let mn = objs.iter().cloned().fold(f64::INFINITY, f64::min);
+    let tiny = |v: f64| 0.0 < v && v < 1e-290;
+    tiny(off) || tiny(mx - mn) || !((objs.len() as f64) * ((mx - mn) + off.abs()) <= 1e300)
 }
 
 fn pop_str(base: u64, objs: &[Option<f64>]) -> String {
@@ -440,6 +500,83 @@ fn main() {
             _ => format!("(op clone {n})"),
         };
         emit(tagged("sel", [op, format!("(rng seed {})", rng.below(1 << 32)), tagged("stack", stack)]));
+    }
+    // 9. populations at the extremes of the objective range, every operator, through `execute` and through a
+    //    direct `Selection::select`: all members +inf, all members equal (0, -0, +-1, +-f64::MAX, subnormal),
+    //    a single finite value among +inf, a single +inf among finite values, +-f64::MAX, signed zeros,
+    //    f64::MAX next to +inf, adjacent floats (near ties)
+    const N_PAT: usize = 12;
+    let mx = f64::MAX;
+    let equal_consts = [0.0, -0.0, 1.0, -1.0, mx, -mx, f64::MIN_POSITIVE, 5e-324, -5e-324, 1e6];
+    let pattern = |k: usize, size: usize, rng: &mut Sm| -> Vec<Option<f64>> {
+        let inf = f64::INFINITY;
+        // the adjacent float towards zero (away from zero for a zero)
+        let prev = |v: f64| f64::from_bits(if v == 0.0 { v.to_bits() + 1 } else { v.to_bits() - 1 });
+        let mix = |vals: &[f64], rng: &mut Sm| -> Vec<Option<f64>> { (0..size).map(|_| Some(*rng.pick(vals))).collect() };
+        match k {
+            0 => vec![Some(inf); size],
+            1 => vec![Some(*rng.pick(&equal_consts)); size],
+            2 => { let mut v = vec![Some(inf); size]; if size > 0 { v[rng.below(size as u64) as usize] = Some(*rng.pick(&equal_consts)); } v }
+            3 => { let mut v = mix(&fin_grid, rng); if size > 0 { v[rng.below(size as u64) as usize] = Some(inf); } v }
+            4 => mix(&[mx, -mx], rng),
+            5 => mix(&[0.0, -0.0], rng),
+            6 => mix(&[mx, inf], rng),
+            7 => mix(&[-mx, -0.0, 0.0, mx, inf, 1.0, -1.0], rng),
+            8 => { let c = *rng.pick(&[1.0, mx, -mx, 1e6, -1.0]); mix(&[c, prev(c)], rng) }
+            9 => mix(&[5e-324, -5e-324, 0.0, -0.0, f64::MIN_POSITIVE], rng),
+            10 => mix(&[-mx, inf], rng),
+            _ => { let c = *rng.pick(&equal_consts); let mut v = vec![Some(c); size]; if size > 0 { v[rng.below(size as u64) as usize] = Some(prev(c)); } v }
+        }
+    };
+    let op_for = |o: usize, size: usize, rng: &mut Sm| -> String {
+        let sz = size as u64;
+        let n = *rng.pick(&[0, 1, 2, sz, sz + 1, 2 * sz + 3]);
+        match o {
+            0 => "(op all)".to_string(),
+            1 => "(op none)".to_string(),
+            2 => format!("(op clone {n})"),
+            3 => format!("(op fullyrandom {n})"),
+            4 => format!("(op rwor {})", rng.below(sz + 2)),
+            5 => format!("(op roulette {n} {})", fx(*rng.pick(&offsets))),
+            6 => format!("(op sus {} {})", n.max(1), fx(*rng.pick(&offsets))),
+            7 => format!("(op tournament {} {})", n, *rng.pick(&[1, 2, sz.max(1) - 1, sz, sz + 1])),
+            8 => format!("(op linrank {n})"),
+            9 => format!("(op exprank {n} {})", fx(*rng.pick(&bases))),
+            10 => format!("(op derand {})", 1 + rng.below(2)),
+            11 => format!("(op debest {})", 1 + rng.below(2)),
+            12 => format!("(op dectb {})", 1 + rng.below(2)),
+            _ => { let lo = rng.below(4); format!("(op iwo {lo} {})", lo + rng.below(5)) }
+        }
+    };
+    let mut range_case = |o: usize, k: usize, size: usize, direct: bool, rng: &mut Sm| {
+        let objs = pattern(k, size, rng);
+        let mut stack = vec![pop_str(0, &objs)];
+        if rng.chance(1, 3) { stack.push(below.clone()); }
+        let mut parts = vec![op_for(o, size, rng), format!("(rng seed {})", rng.below(1 << 32)), tagged("stack", stack)];
+        if direct { parts.push("(via select)".to_string()); }
+        emit(tagged("sel", parts));
+    };
+    // systematic part: every operator x every pattern x sizes {small, at the DE thresholds, medium}
+    for o in 0..14 {
+        for k in 0..N_PAT {
+            for size in [1 + rng.below(2) as usize, 3 + rng.below(3) as usize, 6 + rng.below(4) as usize] {
+                range_case(o, k, size, false, &mut rng);
+                range_case(o, k, size, true, &mut rng);
+            }
+        }
+    }
+    for _ in 0..(if a.thorough { 12000 } else { 1500 }) {
+        let size = if rng.chance(1, 8) { 12 + rng.below(20) as usize } else { rng.below(9) as usize };
+        let (o, k, direct) = (rng.below(14) as usize, rng.below(N_PAT as u64) as usize, rng.chance(1, 3));
+        range_case(o, k, size, direct, &mut rng);
+    }
+    // 9b. the ordinary grids through the direct `Selection::select` entry point
+    for _ in 0..(if a.thorough { 4000 } else { 600 }) {
+        let size = rng.below(9) as usize;
+        let objs: Vec<Option<f64>> = (0..size).map(|_| Some(*rng.pick(&grid))).collect();
+        let o = rng.below(14) as usize;
+        let parts = vec![op_for(o, size, &mut rng), format!("(rng seed {})", rng.below(1 << 32)), tagged("stack", [pop_str(0, &objs)]), "(via select)".to_string()];
+        emit(tagged("sel", parts));
     }
     // 6. malformed stream (outside the quantifier): unevaluated members, empty stack, negative / NaN
     //    offset, base outside (0,1), y outside {1,2}
